@@ -4,6 +4,7 @@
 From Coq Require Import List ZArith Bool Reals Permutation Sorted.
 From VP Require Import Model.Vec3 Model.SortSign Model.VecAlg.
 From VP Require Import Proofs.Vec3Proofs Proofs.SortSignProofs Proofs.VecAlgProofs.
+From VP Require Import Model.VecDiff Proofs.VecDiffProofs.
 Import ListNotations.
 Local Open Scope R_scope.
 
@@ -75,3 +76,12 @@ Print Assumptions binet_cauchy_identity.
 Theorem norm_homogeneous : forall (k : R) (a : V3), norm (vscale k a) = Rabs k * norm a.
 Proof. exact norm_scale. Qed.
 Print Assumptions norm_homogeneous.
+
+(* differentiation with respect to a scalar parameter is a structural function (it terminates) and computes
+   the derivative: linearity, the product rule for scalings and for dot / cross / mixed products, the norm where it
+   does not vanish -- for atoms that are differentiable with the stated derivatives *)
+Theorem diff_terminates_and_leibniz :
+  (forall e t, wf_v e t -> dlim3 (pval_v e) t (pval_v (Dv e) t)) /\
+  (forall e t, wf_s e t -> derivable_pt_lim (pval_s e) t (pval_s (Ds e) t)).
+Proof. exact diff_is_derivative. Qed.
+Print Assumptions diff_terminates_and_leibniz.
